@@ -29,7 +29,7 @@ REAL = ['py4hw.logic.arithmetic_fxp (FixedPointAdd/Sub/Mult/Sign)', 'py4hw.logic
 STUB = ['stimulus']
 ASSUMPTIONS = ['product = exact signed product floored to the result fraction bits, then reduced modulo the result width',
                'comparator only checked where the signed difference is representable in the operand format']
-PROBES = ['block_in_gated_domain', 'operands_from_constant_blocks', 'operands_from_helper_constants', 'outputs_read_at_time_zero', 'settled_by_clk0', 'block_added_after_simulation', 'sign_only_format', 'squarer', 'mixed_operand_formats', 'most_negative', 'mult_full_width', 'cmp_representable', 'cmp_unrepresentable_skipped', 'wrap_add']
+PROBES = ['user_class_named_like_a_primitive', 'block_in_gated_domain', 'operands_from_constant_blocks', 'operands_from_helper_constants', 'outputs_read_at_time_zero', 'settled_by_clk0', 'block_added_after_simulation', 'sign_only_format', 'squarer', 'mixed_operand_formats', 'most_negative', 'mult_full_width', 'cmp_representable', 'cmp_unrepresentable_skipped', 'wrap_add']
 
 
 def gen(rs, tier, index):
@@ -88,11 +88,26 @@ def gen(rs, tier, index):
             'time_zero': fr.random() < 0.3,
             # gated_box: the (combinational) block sits in a sub-block whose clock driver is gated, next to a register of that
             # domain; its operands come from registers of the running system domain; the enable is low most of the time
-            'gated_box': fr.random() < 0.2, 'en_seed': rs.sub('en')}
+            'gated_box': fr.random() < 0.2, 'en_seed': rs.sub('en'),
+            # namesake: a user block of the same system whose class is called like a library primitive used inside the
+            # fixed-point blocks; it is instantiated first
+            'namesake': fr.choice([None] * 6 + ['Mul', 'Sub', 'SignExtend', 'Range'])}
 
 
 class _Box(py4hw.Logic):
     pass
+
+
+def _namesake_class(name):
+    """a user-defined structural block whose class happens to carry the name of a library primitive: r = 3 * a"""
+    def __init__(self, parent, nm, a, r):
+        py4hw.Logic.__init__(self, parent, nm)
+        self.addIn('a', a)
+        self.addOut('r', r)
+        t = self.wire('t', r.getWidth())
+        py4hw.ShiftLeftConstant(self, 'x2', a, 1, t)
+        py4hw.Add(self, 'x3', t, a, r)
+    return type(name, (py4hw.Logic,), {'__init__': __init__})
 
 
 def run(scn, log, st):
@@ -136,6 +151,11 @@ def run(scn, log, st):
         st.probe('mixed_operand_formats')
     outs = {}
     par = hw
+    ns_out = None
+    if scn.get('namesake'):
+        ns_out = hw.wire('ns_r', w)
+        _namesake_class(scn['namesake'])(hw, 'namesake', feed[0], ns_out)
+        st.probe('user_class_named_like_a_primitive')
     if scn.get('late_dut'):
         # the simulator exists and has run before the block under test is instantiated - inside an existing sub-block
         par = _Box(_Box(hw, 'datapath'), 'inner')
@@ -218,6 +238,8 @@ def run(scn, log, st):
                 sim.clk(1)
         st.cycles += 1
         o = {k: x.get() for k, x in outs.items()}
+        if ns_out is not None and not scn['inregs'] and ns_out.get() != M(3 * a, w):
+            raise Violation('fxp', 'fxp:namesake:value', si, 'user block %s (r = 3 * a) next to the fixed-point block: a=%#x r=%#x' % (scn['namesake'], a, ns_out.get()))
         sa, sb = S(a, w), S(b, wb)
         if a == 1 << (w - 1) or b == 1 << (wb - 1):
             st.probe('most_negative')
